@@ -3,6 +3,7 @@ import ast
 import struct
 
 from ..core import astutil as A
+from ..core import match as M
 from ..core.cfg import cfg_of
 from ..core.model import dotted
 
@@ -85,53 +86,70 @@ def run(ctx):
     sizes = {"cls.trailer.size": T, "cls.header.size": H, "self.trailer.size": T, "self.header.size": H}
     wx = P.func(MOD, "Xpak.write_xpak")
     cm = P.func(MOD, "Xpak._check_magic")
+    # ---- locals of write_xpak, bound by ROLE (never by spelling) ------------------------------------------------
+    hm = M.one(wx.node, "$h = open(target_source, $_)")
+    ctx.require(hm is not None, "write_xpak: the opened file handle is not found")
+    hn = hm["h"]
+    # the payload write names the joined index and data blocks
+    pm = M.one(wx.node, "$h.write(struct.pack($_, $idx, $dat))", hm.env)
+    idx_n, dat_n = (pm["idx"], pm["dat"]) if pm else (None, None)
     tw = [c for c in A.calls(wx.node) if A.unparse(c.func) in ("cls.trailer.write",)]
     ctx.require(len(tw) == 1 and len(tw[0].args) == 4, "write_xpak: trailer write not found")
     cw, lens = const_part(tw[0].args[2], sizes)
     ctx.require(cw is not None, "write_xpak: stored trailer offset expression not understood")
-    ctx.check("R1", wx, cw == T + 8 and sorted(lens) == ["new_data", "new_index"], f"stored-offset:+{cw}", "the trailer stores len(index) + len(data) + 24 (the documented XPAK offset)",
+    ctx.check("R1", wx, cw == T + 8 and pm is not None and sorted(lens) == sorted([idx_n, dat_n]), f"stored-offset:+{cw}", "the trailer stores len(index) + len(data) + 24 (the documented XPAK offset)",
               f"write_xpak stores len({lens}) + {cw} in the trailer; the XPAK format (and every other writer/reader) uses index + data + 24", node=tw[0])
     seeks = [c for c in A.calls(cm.node) if A.call_attr(c) == "seek"]
     ctx.require(len(seeks) == 2, "_check_magic: expected two seeks")
     s1 = A.try_literal(seeks[0].args[0])
     ctx.check("R1", cm, s1 == -T and A.try_literal(seeks[0].args[1]) == 2, "trailer-seek", f"the reader finds the trailer {T} bytes before the end", f"first seek is {A.unparse(seeks[0])}", node=seeks[0])
     a0 = seeks[1].args[0]
-    cr = None
+    cr, vars_ = None, None
     if isinstance(a0, ast.UnaryOp) and isinstance(a0.op, ast.USub):
         cr, vars_ = const_part(a0.operand, sizes)
-    ctx.check("R1", cm, cr == 8 and A.try_literal(seeks[1].args[1]) == 2, f"header-seek:+{cr}", "the reader seeks back (stored offset + 8) from the end to reach the header",
+    # the value that is seeked back by is the offset read from the trailer
+    tr = M.one(cm.node, "$pre, $size, $post = self.trailer.read(fd)")
+    ctx.check("R1", cm, cr == 8 and A.try_literal(seeks[1].args[1]) == 2 and tr is not None and vars_ == [tr["size"]], f"header-seek:+{cr}", "the reader seeks back (stored offset + 8) from the end to reach the header",
               f"second seek is `{A.unparse(seeks[1])}`: the documented format needs -(size + 8)", node=seeks[1])
     if cw is not None and cr is not None:
         ctx.check("R1", X, cw + cr == H + T, "offsets-meet", f"stored offset ({cw}) + reader adjustment ({cr}) = header + trailer size ({H + T}): the reader lands on the header it wrote")
     ret = A.returns(cm.node)
-    ctx.check("R1", cm, len(ret) == 1 and A.unparse(ret[0].value).startswith("(self.xpak_start + self.header.size,"), "index-start", "the index starts right after the header")
+    hr = M.one(cm.node, "$pre, $il, $dl = self.header.read(fd)")
+    ctx.check("R1", cm, len(ret) == 1 and hr is not None and M.has(cm.node, "return (self.xpak_start + self.header.size, $il, $dl)", hr.env), "index-start", "the index starts right after the header")
     xs = [A.unparse(v) for t, v, _ in A.assignments(cm.node) if A.unparse(t) == "self.xpak_start"]
     ctx.check("R1", cm, xs == ["fd.tell()"] and any(st.lineno > seeks[1].lineno for t, v, st in A.assignments(cm.node) if A.unparse(t) == "self.xpak_start"), "records-start", "xpak_start is the position of the header")
     # per-key stride
     kd = P.func(MOD, "Xpak.keys_dict")
-    stride = [n for n in A.body_walk(kd.node) if isinstance(n, ast.AugAssign) and isinstance(n.op, ast.Sub) and A.unparse(n.target) == "index_len"]
+    # the remaining-index counter is the index length _check_magic returned
+    km = M.one(kd.node, "$fd = self._fd\n$istart, $ilen, $dlen = self._check_magic($fd)")
+    ctx.require(km is not None, "keys_dict: call of _check_magic on the file object not found")
+    fd_n = km["fd"]
+    stride = [n for n in A.body_walk(kd.node) if isinstance(n, ast.AugAssign) and isinstance(n.op, ast.Sub) and A.unparse(n.target) == km["ilen"]]
     ctx.require(len(stride) == 1, "keys_dict: index stride not found")
+    in_loop = any(isinstance(p, ast.While) and A.unparse(p.test) == km["ilen"] for p in A.parents(stride[0]))
     sc, sv = const_part(stride[0].value, {})
-    packs = [c for c in A.calls(wx.node) if dotted(c.func) == "struct.pack" and isinstance(c.args[0], ast.JoinedStr) and "key" in A.unparse(c.args[0])]
+    # the writer's key/value loop and its per-key index record
+    loop = [n for n in wx.node.body if isinstance(n, ast.For)]
+    ctx.require(len(loop) == 1 and isinstance(loop[0].target, ast.Tuple) and len(loop[0].target.elts) == 2, "write_xpak: key/value loop not found")
+    lp = loop[0]
+    kname, vname = [A.unparse(e) for e in lp.target.elts]
+    packs = [c for c in A.calls(lp) if dotted(c.func) == "struct.pack" and c.args and isinstance(c.args[0], ast.JoinedStr)]
     ctx.require(len(packs) == 1, "write_xpak: per-key pack not found")
     pf = "".join(v.value if isinstance(v, ast.Constant) else "0" for v in packs[0].args[0].values)
     fixed = struct.calcsize(pf)
-    ctx.check("R1", kd, sc == fixed == 12 and sv == ["key_len"], f"index-stride:{sc}/{fixed}", "the reader's per-key stride (key_len + 12) equals the writer's per-key record overhead", f"reader subtracts key_len + {sc}, writer packs {pf} = {fixed} fixed bytes", node=stride[0])
+    kl = M.one(kd.node, "while $ilen:\n    $kl = struct.unpack('>L', $fd.read(4))[0]\n    $key = $fd.read($kl)", km.env)
+    ctx.check("R1", kd, sc == fixed == 12 and in_loop and kl is not None and sv == [kl["kl"]], f"index-stride:{sc}/{fixed}", "the reader's per-key stride (key_len + 12) equals the writer's per-key record overhead", f"reader subtracts key_len + {sc}, writer packs {pf} = {fixed} fixed bytes", node=stride[0])
     reads = [A.unparse(c) for c in A.calls(kd.node) if A.call_attr(c) == "read"]
-    ctx.check("R1", kd, reads == ["fd.read(4)", "fd.read(key_len)", "fd.read(8)"], "index-record-reads", "an index record is read as 4 + key_len + 8 bytes", f"reads are {reads}")
+    ctx.check("R1", kd, kl is not None and reads == [f"{fd_n}.read(4)", f"{fd_n}.read({kl['kl']})", f"{fd_n}.read(8)"], "index-record-reads", "an index record is read as 4 + key_len + 8 bytes", f"reads are {reads}")
     ctx.floor("R1", 10)
 
     # ---- R2 write order --------------------------------------------------------------------
     g = cfg_of(wx.node)
-    def one(pred, what):
-        hits = [c for c in A.calls(wx.node) if pred(c)]
-        ctx.require(len(hits) >= 1, f"write_xpak: {what} not found")
-        return hits
-    seek = [c for c in A.calls(wx.node) if A.unparse(c.func) == "handle.seek"]
+    seek = [c for c in A.calls(wx.node) if A.unparse(c.func) == f"{hn}.seek"]
     hdr = [c for c in A.calls(wx.node) if A.unparse(c.func) == "cls.header.write"]
-    pay = [c for c in A.calls(wx.node) if A.unparse(c.func) == "handle.write"]
-    trunc = [c for c in A.calls(wx.node) if A.unparse(c.func) == "handle.truncate"]
-    close = [c for c in A.calls(wx.node) if A.unparse(c.func) == "handle.close"]
+    pay = [c for c in A.calls(wx.node) if A.unparse(c.func) == f"{hn}.write"]
+    trunc = [c for c in A.calls(wx.node) if A.unparse(c.func) == f"{hn}.truncate"]
+    close = [c for c in A.calls(wx.node) if A.unparse(c.func) == f"{hn}.close"]
     seq = [("seek", seek), ("header", hdr), ("payload", pay), ("trailer", tw), ("truncate", trunc), ("close", close)]
     for name, hits in seq:
         ctx.check("R2", wx, len(hits) == 1, f"has:{name}", f"write_xpak performs exactly one {name} step",
@@ -141,37 +159,41 @@ def run(ctx):
     for (n1, c1), (n2, c2) in zip(present, present[1:]):
         ok = g.node_of(c1) in doms.get(g.node_of(c2), ()) and g.node_of(c1) is not g.node_of(c2)
         ctx.check("R2", wx, ok, f"order:{n1}<{n2}", f"{n1} happens before {n2} on every path", node=c2)
+    # `start` = the variable that receives the old segment's offset
+    sm = M.one(wx.node, "$old = cls(target_source)\n$start = $old.xpak_start")
     if seek:
-        ctx.check("R2", wx, [A.unparse(a) for a in seek[0].args] == ["start", "0"], "seek-to-start", "the write position is the old segment's start (or end of file), absolute")
-    starts = [A.unparse(v) for t, v, _ in A.assignments(wx.node, "start")]
-    ctx.check("R2", wx, "old_xpak.xpak_start" in starts and any("st_size" in s for s in starts), "start-sources", "start is the old segment's offset when one exists, else the current size", f"start is assigned from {starts}")
+        ctx.check("R2", wx, sm is not None and [A.unparse(a) for a in seek[0].args] == [sm["start"], "0"], "seek-to-start", "the write position is the old segment's start (or end of file), absolute")
+    starts = [A.unparse(v) for t, v, _ in A.assignments(wx.node, sm["start"])] if sm else []
+    ctx.check("R2", wx, sm is not None and any("st_size" in s for s in starts), "start-sources", "start is the old segment's offset when one exists, else the current size", f"start is assigned from {starts}")
     opens = [c for c in A.calls(wx.node) if dotted(c.func) == "open"]
     ctx.check("R2", wx, len(opens) == 1 and A.try_literal(opens[0].args[1]) in ("r+b", "rb+"), "open-mode", "the file is opened r+b (never truncated up front)", node=opens[0] if opens else None)
     ctx.floor("R2", 12)
 
     # ---- R3 lengths of encoded bytes ----------------------------------------------------------
-    loop = [n for n in wx.node.body if isinstance(n, ast.For)]
-    ctx.require(len(loop) == 1, "write_xpak: key/value loop not found")
-    lp = loop[0]
-    kname, vname = [A.unparse(e) for e in lp.target.elts]
-    enc = [n for n in lp.body if isinstance(n, ast.If) and f"isinstance({vname}, str)" in A.unparse(n.test)]
-    enc_ok = bool(enc) and any(A.unparse(s) == f"{vname} = {vname}.encode('utf8')" for s in enc[0].body)
+    venv = {"v": vname, "k": kname}
+    enc = [n for n in lp.body if isinstance(n, ast.If) and M.has(n.test, "isinstance($v, str)", venv)]
+    enc_ok = bool(enc) and M.has(enc[0].body, "$v = $v.encode('utf8')", venv)
     ctx.check("R3", wx, enc_ok, "value-encoded-utf8", "text values are encoded as UTF-8 into the same variable that is then measured and written",
               "write_xpak no longer re-binds the value to its UTF-8 bytes before measuring it: recorded lengths are in characters, not in the bytes written")
     lens_uses = [n for n in ast.walk(lp) if isinstance(n, ast.Call) and dotted(n.func) == "len" and A.unparse(n.args[0]) == vname]
     for n in lens_uses:
         ctx.check("R3", wx, bool(enc) and n.lineno > enc[0].end_lineno, f"len-after-encode@{A.unparse(A.stmt_of(n))[:30]}", "len(value) is taken after the value was encoded to bytes",
                   "write_xpak measures the value before encoding it: for non-ASCII text the recorded length is in characters, shorter than the bytes written, and every later offset is shifted", node=n)
-    app = [c for c in A.calls(lp) if A.unparse(c.func) == "new_data.append"]
+    # the list that collects the data block: the one later joined into the payload's data argument
+    dl = M.one(wx.node.body, "$dlist = []\nfor $k, $v in $_:\n    $dlist.append($_)\n$dat = $_.join($dlist)", dict(venv, **({"dat": dat_n} if dat_n else {})))
+    app = [c for c in A.calls(lp) if dl is not None and A.unparse(c.func) == f"{dl['dlist']}.append"]
     ctx.check("R3", wx, len(app) == 1 and A.unparse(app[0].args[0]) == vname, "writes-measured-bytes", "the bytes appended to the data block are the measured variable itself",
               f"write_xpak appends `{A.unparse(app[0].args[0]) if app else None}` but measured `{vname}`", node=app[0] if app else None)
-    pos = [n for n in lp.body if isinstance(n, ast.AugAssign) and A.unparse(n.target) == "cur_pos"]
-    ctx.check("R3", wx, len(pos) == 1 and A.unparse(pos[0].value) == f"len({vname})", "offset-advances", "the running offset advances by the written length")
+    # the running offset: the one augmented in the loop, initialised to 0 before it
+    pos = [n for n in lp.body if isinstance(n, ast.AugAssign) and isinstance(n.op, ast.Add) and isinstance(n.target, ast.Name)]
+    pos_n = pos[0].target.id if len(pos) == 1 else None
+    ctx.check("R3", wx, pos_n is not None and A.unparse(pos[0].value) == f"len({vname})" and M.has(wx.node.body, "$pos = 0\nfor $k, $v in $_:\n    ...", dict(venv, pos=pos_n)), "offset-advances", "the running offset advances by the written length")
     pk = packs[0]
-    ctx.check("R3", wx, [A.unparse(a) for a in pk.args[1:]] == [f"len({kname})", kname, "cur_pos", f"len({vname})"], "index-record", "an index record is (len(key), key, offset, len(value))")
+    ctx.check("R3", wx, pos_n is not None and [A.unparse(a) for a in pk.args[1:]] == [f"len({kname})", kname, pos_n, f"len({vname})"], "index-record", "an index record is (len(key), key, offset, len(value))")
     gd = P.func(MOD, "Xpak._get_data")
-    ctx.check("R3", gd, "decode" in A.unparse(gd.node) and "needs_decoding" in A.unparse(gd.node), "reader-decodes", "the reader decodes values flagged for decoding")
-    ctx.check("R3", kd, "not key.startswith('environment')" in A.unparse(kd.node), "environment-raw", "every key except environment* is flagged for decoding")
+    rd = M.one(gd.node, "$r = fd.read(data_len)")
+    ctx.check("R3", gd, rd is not None and (M.has(gd.node, "if needs_decoding:\n    return $r.decode()", rd.env) or M.has(gd.node, "$r.decode() if needs_decoding else $_", rd.env)), "reader-decodes", "the reader decodes values flagged for decoding")
+    ctx.check("R3", kd, M.has(kd.node, "$d[$key] = ($_, $_, not $key.startswith('environment'))"), "environment-raw", "every key except environment* is flagged for decoding")
     ctx.floor("R3", 7)
 
 
